@@ -28,7 +28,7 @@ CHECKS = {
          "Both encodings of points of every class (affine and via generated projective representatives) are compared byte-for-byte with an encoder written from the format README and decoded back; in the reverse direction every accepted byte string must re-encode to itself. The EncodedPoint value returned by the encoder is decoded directly (no copy through bytes); points with structured x (just below the modulus, shared leading bits). Histories: thousands of distinct arguments through the operation on one thread with re-evaluation of earlier ones (bounded memos), and 16 threads alternating between two arguments against the single-threaded reference. Curve points from a prescribed ordinate (limbs tying with (q-1)/2); searched subgroup points with banded coordinates.",
          "5/C05", ""),
  "C06": ("property-based differential testing against an RFC 9380 model pipeline + RFC known-answer vectors",
-         "hash_to_curve / encode_to_curve for both groups and four expanders on generated (msg, dst) are compared with a from-the-RFC pipeline (exact point equality, model subgroup test, determinism); four RFC 9380 appendix-J vectors are checked directly. Related requests incl. msg|tag boundary shifts and out-of-domain calls in between. Histories: thousands of distinct arguments through the operation on one thread with re-evaluation of earlier ones (bounded memos), and 16 threads alternating between two arguments against the single-threaded reference.",
+         "hash_to_curve / encode_to_curve for both groups and four expanders on generated (msg, dst) are compared with a from-the-RFC pipeline (exact point equality, model subgroup test, determinism); four RFC 9380 appendix-J vectors are checked directly. Related requests incl. msg|tag boundary shifts and out-of-domain calls in between. Histories: thousands of distinct arguments through the operation on one thread with re-evaluation of earlier ones (bounded memos), and 16 threads alternating between two arguments against the single-threaded reference. Messages of 64 KiB .. 16 MiB (thorough: 256 MiB) around piece-wise absorption thresholds through the whole pipeline.",
          "5/C06", "Isogeny coefficient tables of the model are a frozen copy of the pinned tree (DESIGN.md 2.2)."),
  "C07": ("property-based testing: model predicate on generated coordinate pairs + stateful safe-API programs with an invariant after every step",
          "The membership predicate is compared with (identity or on-curve and [r]P = O) on arbitrary pairs, every small-order class, twists and off-curve pairs; programs built only from safe sources and safe operations are executed and after every step the value must be a member (sources tested by the model, derived values equal to the model's group-law value); sources include arbitrary byte strings fed to the checked decoders / deserializers (whatever is accepted must be a member) and order-r points of isomorphic curves for the predicate. Predicate histories: after decoding / testing a point, the predicate on pairs derived from it (same x other y, ...). Histories: thousands of distinct arguments through the operation on one thread with re-evaluation of earlier ones (bounded memos), and 16 threads alternating between two arguments against the single-threaded reference.",
@@ -43,16 +43,16 @@ CHECKS = {
          "Lists of points with known discrete logs (duplicates, inverse pairs, identities, zero and word-straddling scalars, mismatched lengths, lengths at every window-selection boundary) go through the default, explicit-window (1..=20) and table-driven entry points and are compared with [sum k_i a_i]G; find_pippinger_window is enumerated; tables are used buffers with stale content; valid calls after a rejected out-of-domain call on the same thread. Lists beyond 2^20 entries. Histories: thousands of distinct arguments through the operation on one thread with re-evaluation of earlier ones (bounded memos), and 16 threads alternating between two arguments against the single-threaded reference. Lists of 65536 terms sharing one scalar; whole 64-bit words zero in every scalar.",
          "5/C10", ""),
  "C11": ("property-based testing of pairing products against the published e(g1,g2) raised to the exponent sum in the model",
-         "Generated lists of pairs with identities, repetitions and two-/three-term cancellations: joint Miller loop = product of singles = published^(sum a_i b_i), exactly 1 on cancellation, helper functions agree, prepared elements re-used in other orders and sub-lists. Very long lists around power-of-two sizes up to 1026 pairs; prepared elements copied into occupied slots with clone_from. Histories: thousands of distinct arguments through the operation on one thread with re-evaluation of earlier ones (bounded memos), and 16 threads alternating between two arguments against the single-threaded reference. The pair list passed as six kinds of iterable.",
+         "Generated lists of pairs with identities, repetitions and two-/three-term cancellations: joint Miller loop = product of singles = published^(sum a_i b_i), exactly 1 on cancellation, helper functions agree, prepared elements re-used in other orders and sub-lists. Very long lists around power-of-two sizes up to 1026 pairs; prepared elements copied into occupied slots with clone_from. Histories: thousands of distinct arguments through the operation on one thread with re-evaluation of earlier ones (bounded memos), and 16 threads alternating between two arguments against the single-threaded reference. The pair list passed as six kinds of iterable. Equal points sharing one prepared element by reference (G2 side, G1 side, both) while the other side keeps one prepared element per pair.",
          "5/C11", ""),
  "C12": ("property-based differential testing against a generic model power f^(3(q^12-1)/r)",
          "Elements of every subfield class, Miller outputs and products: exact equality with square-and-multiply in the flat model ring, failure exactly for 0, multiplicativity, order, subfields to 1. Cyclotomic / GT elements and their inverses, conjugates, Frobenius images; sequences on related arguments (f, conj f, 1/f, ...). Histories: thousands of distinct arguments through the operation on one thread with re-evaluation of earlier ones (bounded memos), and 16 threads alternating between two arguments against the single-threaded reference.",
          "5/C12", ""),
  "C13": ("property-based differential testing against RFC 9380 section 5 written in the model",
-         "expand_message for four expanders on lengths around every block boundary incl. the must-abort class, block reduction on values around multiples of the modulus, hash_to_field for Fq / Fr / Fq2. XMD over six SHA-2 variants (digest not half the block for four of them); two-part blocks whose low part is around small multiples of the modulus at every split position; related requests incl. boundary shifts. Histories: thousands of distinct arguments through the operation on one thread with re-evaluation of earlier ones (bounded memos), and 16 threads alternating between two arguments against the single-threaded reference. Exhaustive sweep of every message length (0..=16800 quick, 70000 thorough) and every output length for eight expanders.",
+         "expand_message for four expanders on lengths around every block boundary incl. the must-abort class, block reduction on values around multiples of the modulus, hash_to_field for Fq / Fr / Fq2. XMD over six SHA-2 variants (digest not half the block for four of them); two-part blocks whose low part is around small multiples of the modulus at every split position; related requests incl. boundary shifts. Histories: thousands of distinct arguments through the operation on one thread with re-evaluation of earlier ones (bounded memos), and 16 threads alternating between two arguments against the single-threaded reference. Exhaustive sweep of every message length (0..=16800 quick, 70000 thorough) and every output length for eight expanders. Messages of 64 KiB .. 16 MiB (thorough: 256 MiB) around piece-wise absorption thresholds, all eight expanders.",
          "5/C13", ""),
  "C14": ("property-based differential testing against the model composition with constructed colliding inputs",
-         "map_to_curve and map2_to_curve on generated inputs incl. 0, exceptional roots, u1 = +-u0 and model-constructed partners with coinciding / inverse SSWU images, compared with clear_cofactor(iso(sswu(u0)) + iso(sswu(u1))) in the model; subgroup; no panic. (This check found the defect repaired by the fix: commit.) Inputs constructed by inverting the SSWU map on stage-special points (isogeny kernel, small order, pure cofactor, points shared with the target curve) and backwards from structured intermediates. Histories: thousands of distinct arguments through the operation on one thread with re-evaluation of earlier ones (bounded memos), and 16 threads alternating between two arguments against the single-threaded reference.",
+         "map_to_curve and map2_to_curve on generated inputs incl. 0, exceptional roots, u1 = +-u0 and model-constructed partners with coinciding / inverse SSWU images, compared with clear_cofactor(iso(sswu(u0)) + iso(sswu(u1))) in the model; subgroup; no panic. (This check found the defect repaired by the fix: commit.) Inputs constructed by inverting the SSWU map on stage-special points (isogeny kernel, small order, pure cofactor, points shared with the target curve) and backwards from structured intermediates. Histories: thousands of distinct arguments through the operation on one thread with re-evaluation of earlier ones (bounded memos), and 16 threads alternating between two arguments against the single-threaded reference. Second inputs whose SSWU intermediate t1 = Z u1^2 is tied to t0 (t1 = -1 - t0: same denominators / Jacobian Z; -t0, 1/t0, t0 + 1, t0^2, -1 - 1/t0) while the images are unrelated.",
          "5/C14 and 6", ""),
  "C15": ("property-based differential testing against the RFC straight-line SSWU with measured branch-cell coverage",
          "osswu_map on generated t for both groups compared as affine points with the RFC map; every case classified by the model into its square-root branch cell (16 for G2) and the histogram recorded; the addition chains compared with model powers. Inputs constructed backwards from structured intermediates (N, Zu^2, u^2, x1 of shape (c,0), (0,c), (c,c), (c,-c)); canonical limb combinations. Histories: thousands of distinct arguments through the operation on one thread with re-evaluation of earlier ones (bounded memos), and 16 threads alternating between two arguments against the single-threaded reference. Inputs constructed from a prescribed output ordinate (cubic solved over Fq).",
@@ -70,7 +70,7 @@ CHECKS = {
          "Six types x both flags: written bytes equal the model image; valid, truncated, trailing, wrong-flag, non-reduced, rejected-point and random streams are read through a chunking, counting reader and the outcome is compared with the model's decision. Related streams back to back, multi-item streams through one reader, chunking writers, a failing writer before a good one. Histories: thousands of distinct arguments through the operation on one thread with re-evaluation of earlier ones (bounded memos), and 16 threads alternating between two arguments against the single-threaded reference. Searched subgroup points with banded coordinates.",
          "5/C19", ""),
  "C20": ("property-based concurrency testing: generated workloads x thread assignments x prefix histories, bit-identical to a sequential run (TSan pass in the thorough tier)",
-         "Generated workloads run sequentially twice (different order / prefixes) and concurrently on 2..16 barrier-released threads sharing a wNAF table and prepared pairing elements; all results must be bit-identical; bursts of 4..16 threads repeating a few operations densely (check-then-use races on process-wide state); the same operations in fresh child processes in different orders (state captured from the first caller); thorough adds a ThreadSanitizer pass. Interleavings are sampled, not enumerated. Reused wNAF contexts across bases and windows; long histories and two-input bursts over 27 operations; sibling hash requests with shifted msg|tag boundary. MSMs of 1030 / 4100 terms in histories and bursts.",
+         "Generated workloads run sequentially twice (different order / prefixes) and concurrently on 2..16 barrier-released threads sharing a wNAF table and prepared pairing elements; all results must be bit-identical; bursts of 4..16 threads repeating a few operations densely (check-then-use races on process-wide state); the same operations in fresh child processes in different orders (state captured from the first caller); thorough adds a ThreadSanitizer pass. Interleavings are sampled, not enumerated. Reused wNAF contexts across bases and windows; long histories and two-input bursts over 27 operations; sibling hash requests with shifted msg|tag boundary. MSMs of 1030 / 4100 terms in histories and bursts. Cold start: the first library work of a fresh process done by 2..16 barrier-released threads at once, compared with the warm sequential reference (races in one-time initialisation).",
          "5/C20", "The OS owns the schedule; see DESIGN.md section 8."),
 }
 
